@@ -1,8 +1,8 @@
 (* C14 — property theorems.  Only statements, each closed by [exact], each followed by
    Print Assumptions. *)
 From Coq Require Import ZArith QArith List Bool.
-From Centro Require Import Model.Circle Model.HullFill Spec.MecSpec Spec.FeretSpec Spec.FillSpec
-  Proofs.MecProofs Proofs.CircleProofs Proofs.FeretProofs Proofs.FillProofs.
+From Centro Require Import Model.Circle Model.HullFill Spec.MecSpec Spec.FeretSpec Spec.FeretLower Spec.FillSpec
+  Proofs.MecProofs Proofs.CircleProofs Proofs.FeretProofs Proofs.FeretLowerProofs Proofs.FillProofs.
 
 (* Full.  Soundness of the certificate checker that is run on the exact circle reconstructed from
    the implementation's output: the circle contains every pixel centre of S and no circle
@@ -54,13 +54,12 @@ Theorem C14_feret_max_spec : forall S : list (Z * Z),
 Proof. exact feret_max_spec. Qed.
 Print Assumptions C14_feret_max_spec.
 
-(* Partial.  A minimum width W = wn/wd accepted by the checker is the squared distance between two
-   parallel lines that enclose every pixel of S (u is their common normal), and no pair of
-   enclosing parallel lines one of which runs through an edge of the polygon H (whose vertices
-   are pixels of S) is closer.  Missing for the full statement "no enclosing pair of parallel
-   lines in ANY direction is closer": the rotating-calipers lemma that the width of a finite point
-   set, as a function of the direction, attains its minimum at the normal of a hull edge. *)
-Theorem C14_feret_min_strip_partial : forall S H a b wn wd,
+(* Full (first half of the minimum Feret diameter).  A minimum width W = wn/wd accepted by the
+   checker is the squared distance between two parallel lines that enclose every pixel of S (u is
+   their common normal: lo <= <p,u> <= hi for all p in S, width^2 = (hi-lo)^2/|u|^2), and no pair of
+   enclosing parallel lines one of which runs through an edge of the polygon H (whose vertices are
+   pixels of S) is closer. *)
+Theorem C14_feret_min_attained : forall S H a b wn wd,
   feret_min_ok S H a b wn wd = true ->
   (0 < wd)%Z /\
   (exists u lo hi, u <> (0, 0)%Z /\ Strip S u lo hi /\
@@ -71,7 +70,19 @@ Theorem C14_feret_min_strip_partial : forall S H a b wn wd,
                      (lo = fst u * fst b' + snd u * snd b')%Z /\
                      (wn * (fst u * fst u + snd u * snd u) <= (hi - lo) * (hi - lo) * wd)%Z).
 Proof. exact feret_min_strip. Qed.
-Print Assumptions C14_feret_min_strip_partial.
+Print Assumptions C14_feret_min_attained.
+
+(* Full (second half).  A width W = wn/wd accepted by the cone certificate checker is a lower bound
+   for EVERY enclosing pair of parallel lines, in any direction u with integer (hence, by scaling,
+   rational) components: (hi-lo)^2/|u|^2 >= wn/wd.  Real directions are limits of rational ones and
+   the width is continuous in u, so together with C14_feret_min_attained: W is the smallest
+   distance between two parallel lines enclosing the pixels. *)
+Theorem C14_feret_min_lower_bound : forall S l wn wd,
+  feret_lower_ok S l wn wd = true ->
+  forall u lo hi, Strip S u lo hi -> (lo <= hi)%Z ->
+    (wn * (fst u * fst u + snd u * snd u) <= (hi - lo) * (hi - lo) * wd)%Z.
+Proof. exact feret_lower_sound. Qed.
+Print Assumptions C14_feret_min_lower_bound.
 
 (* Full.  Soundness of the fill checker run on the implementation's output: the rows are pairwise
    distinct and are exactly the lattice points (i,j) inside or on the polygon H of some object,
